@@ -114,6 +114,19 @@ def run_engine(case):
   pages = sorted(d.meta('_grist_Pages'), key=lambda p: p['pagePos'])
   if len(pages) != n:
     return out.fail('C36:engine:setup', 'expected %d pages got %d' % (n, len(pages)))
+  # optionally move pages around first, so that display order (pagePos) differs from row-id order
+  order = [int(x) for x in case.get('order') or []]
+  if order:
+    keyed = sorted(range(n), key=lambda i: (order[i % len(order)], i))
+    newpos = [0.0] * n
+    for rank, i in enumerate(keyed):
+      newpos[i] = float(rank + 1)
+    r = d.apply([['BulkUpdateRecord', '_grist_Pages', [p['id'] for p in pages], {'pagePos': newpos}]])
+    if not r.ok:
+      return out.fail('C36:engine:setup', 'cannot move pages: %r' % r.error)
+    pages = sorted(d.meta('_grist_Pages'), key=lambda p: p['pagePos'])
+    if [p['id'] for p in pages] != sorted(p['id'] for p in pages):
+      out.cls('engine:pages-moved')
   ids = [p['id'] for p in pages]
   r = d.apply([['BulkUpdateRecord', '_grist_Pages', ids, {'indentation': indents}]])
   if not r.ok:
@@ -125,6 +138,7 @@ def run_engine(case):
     return out
   r = d.apply([['BulkRemoveRecord', '_grist_Pages', rm_ids]])
   out['concrete'] = d.concrete_history()[2:]
+  out['concrete'] = [c for c in out['concrete'] if c[1][0][0] != 'AddView']
   if not r.ok:
     return out.fail('C36:engine:remove-raised', 'removing pages raised %r' % r.error)
   pages2 = sorted(d.meta('_grist_Pages'), key=lambda p: p['pagePos'])
@@ -166,6 +180,7 @@ def strategy(tier):
     'removed': st.lists(st.integers(0, 39), max_size=12)})
   eng = st.fixed_dictionaries({
     'engine': st.just(True),
+    'order': st.lists(st.integers(0, 7), max_size=8),
     'indents': st.lists(st.integers(0, 5), min_size=1, max_size=8),
     'removed': st.lists(st.integers(0, 7), min_size=1, max_size=5)})
   return st.one_of(pure, pure, pure, eng)
